@@ -102,7 +102,8 @@ def api_run(spec):
             obs["db"] = dbs
             obs["n_events_after_db"] = len(cap.recs)
             if not an.get("db_only"):
-                codebase = CodeBase(spec["root"], exclude_patterns=list(an.get("excludes", [])))
+                cb_dirs = spec.get("codebase_dirs") or [spec["root"]]
+                codebase = CodeBase(*cb_dirs, exclude_patterns=list(an.get("excludes", [])))
                 state = finder.find(spec["root"], codebase, configuration)
                 obs.update(_observe_state(state, codebase, top))
                 if an.get("metrics"):
@@ -222,7 +223,7 @@ def membership(spec):
     os.chdir(spec["cwd"])
     from codebasin import CodeBase
 
-    cb = CodeBase(spec["root"], exclude_patterns=list(spec.get("excludes", [])))
+    cb = CodeBase(*(spec.get("codebase_dirs") or [spec["root"]]), exclude_patterns=list(spec.get("excludes", [])))
     out = []
     for p in spec["paths"]:
         try:
